@@ -591,3 +591,66 @@ Proof.
     + destruct (Bool.eqb (comment_indented c) b); simpl in E, ADJ; [discriminate | inversion E; auto].
     + discriminate.
 Qed.
+
+(* ---- the rule for one surrounding claim, stated on the token list (no scan functions) -------------- *)
+Definition adjacent_decl (d : doc) (start : Z) (bw : bool) (ind : option bool) (c : tok) : Prop :=
+  exists pre s g1 nl g2 post,
+    (if bw then d = pre ++ c :: g2 ++ nl :: g1 ++ s :: post
+     else d = pre ++ s :: g1 ++ nl :: g2 ++ c :: post) /\
+    t_id s = start /\ forallb is_ph g1 = true /\ forallb is_ph g2 = true /\
+    is_nl nl = true /\ is_comment c = true /\ t_claimed c = false /\
+    match ind with Some b => comment_indented c = b | None => True end.
+
+Lemma forallb_rev : forall (f : tok -> bool) l, forallb f (rev l) = forallb f l.
+Proof.
+  induction l as [|x l IH]; simpl; auto. rewrite forallb_app, IH. simpl. rewrite andb_true_r. apply andb_comm.
+Qed.
+
+Theorem rule_single_claim : forall d start bw ig ind i,
+  NoDup (ids d) ->
+  (fst (claim_comment None d start bw ig ind) = Ok (Some i) <->
+   exists c, t_id c = i /\ adjacent_decl d start bw ind c).
+Proof.
+  intros d start bw ig ind i ND. split.
+  - intros H.
+    destruct (walk d start bw) as [w|] eqn:W.
+    + rewrite claim_comment_is_spec in H by (auto; congruence). unfold claim_spec in H.
+      destruct (adjacent_comment d start bw ind) as [c|] eqn:ADJ; [|discriminate].
+      destruct (t_claimed c) eqn:CL; [destruct ig; discriminate|]. inversion H; subst i. exists c. split; auto.
+      destruct (adjacent_comment_shape d start bw ind c ADJ)
+        as [first [w' [ign1 [nl [ign2 [rest [W' [HW [P1 [P2 [INL [IC IND]]]]]]]]]]]].
+      unfold walk in W'. destruct (split_at start d) as [[a sb]|] eqn:S; [|discriminate].
+      destruct sb as [|s b]; [discriminate|]. apply split_at_spec in S.
+      destruct S as [Hd [x0 [r0 [E0 I0]]]]. inversion E0; subst x0 r0.
+      destruct bw; injection W' as HR.
+      * assert (Ea : a = rev rest ++ c :: rev ign2 ++ nl :: rev ign1).
+        { rewrite <- (rev_involutive a), HR, HW. rewrite rev_app_distr. simpl. rewrite rev_app_distr. simpl.
+          rewrite <- ?app_assoc. simpl. rewrite <- ?app_assoc. reflexivity. }
+        exists (rev rest), s, (rev ign1), nl, (rev ign2), b.
+        split; [rewrite Hd, Ea; rewrite <- ?app_assoc; simpl; rewrite <- ?app_assoc; reflexivity|].
+        split; [exact I0|]. split; [rewrite forallb_rev; exact P1|]. split; [rewrite forallb_rev; exact P2|].
+        split; [exact INL|]. split; [exact IC|]. split; [exact CL | exact IND].
+      * exists a, s, ign1, nl, ign2, rest.
+        split; [rewrite Hd, HR, HW; reflexivity|].
+        split; [exact I0|]. split; [exact P1|]. split; [exact P2|].
+        split; [exact INL|]. split; [exact IC|]. split; [exact CL | exact IND].
+    + unfold claim_comment in H. rewrite W in H. discriminate.
+  - intros [c [Ei [pre [s [g1 [nl [g2 [post [Hd [Es [P1 [P2 [INL [IC [CL IND]]]]]]]]]]]]]]]. subst i start.
+    destruct bw.
+    + assert (W : walk d (t_id s) true = Some (rev g1 ++ nl :: rev g2 ++ c :: rev pre)).
+      { unfold walk. assert (E : d = (pre ++ c :: g2 ++ nl :: g1) ++ s :: post).
+        { rewrite Hd. rewrite <- ?app_assoc. simpl. rewrite <- ?app_assoc. reflexivity. }
+        rewrite E. rewrite split_at_unique by (eapply nodup_mid; rewrite <- E; exact ND).
+        f_equal. rewrite rev_app_distr. simpl. rewrite rev_app_distr. simpl.
+        rewrite <- ?app_assoc. simpl. rewrite <- ?app_assoc. reflexivity. }
+      destruct (rev g1 ++ nl :: rev g2 ++ c :: rev pre) as [|first w'] eqn:HW; [destruct (rev g1); discriminate|].
+      destruct (claim_comment_complete d (t_id s) true ig ind first w' (rev g1) nl (rev g2) c (rev pre) ND W
+                  (eq_sym HW)) as [d2 [_ E]]; auto; try (rewrite forallb_rev; auto).
+      rewrite E. reflexivity.
+    + assert (W : walk d (t_id s) false = Some (g1 ++ nl :: g2 ++ c :: post)).
+      { unfold walk. rewrite Hd. rewrite split_at_unique by (eapply nodup_mid; rewrite <- Hd; exact ND). reflexivity. }
+      destruct (g1 ++ nl :: g2 ++ c :: post) as [|first w'] eqn:HW; [destruct g1; discriminate|].
+      destruct (claim_comment_complete d (t_id s) false ig ind first w' g1 nl g2 c post ND W (eq_sym HW))
+        as [d2 [_ E]]; auto.
+      rewrite E. reflexivity.
+Qed.
